@@ -41,6 +41,14 @@ CHECKS = {
              'corpus + wide-generator compilations per quick run); NameComponent.__eq__ (inflect) enters as a parameter. A genuine defect (F8) was '
              'repaired by fix: commit c870dde. Partial: non-contiguous groups are reordered by design (finding F20, witness Findings/C14.lean).',
         design='DESIGN.md §6 C14'),
+    'C11': dict(
+        technique='Lean 4 proof about the block-routing state machine over the regenerated header table + correspondence with real outputs of header layouts',
+        text='Lean theorems: the four header phrases of the regenerated grammar terminal map to initial/dynamic/always/final; for every document '
+             '(any number, order and repetition of headers, sentences before the first header, any way Lark splits blocks) every rule stands under '
+             'the directive of the last header before its sentence and rules keep sentence order; the header-free document has the same rule sequence.',
+        note='Trusted: Lean kernel; extract_tables.py; the correspondence harness (120 layouts per quick run incl. all ordered pairs of headers). '
+             'Lark\'s ambiguous block splitting is covered by the split-invariance theorem. A genuine defect (F6) was repaired by fix: commit 97606d9.',
+        design='DESIGN.md §6 C11'),
 }
 
 NOT_YET = {}
